@@ -134,16 +134,34 @@ def isPositive : SymExpr → Bool
 def imin (x y : Int) : Int := if x ≤ y then x else y
 def imax (x y : Int) : Int := if x ≤ y then y else x
 
+/-- `i32::saturating_*`: clamp the exact result into `i32`. -/
+def sat (x : Int) : Int := if x < I32MIN then I32MIN else if I32MAX < x then I32MAX else x
+
 def range : SymExpr → Int × Int
   | .value x => (x, x)
   | .var _ p => if p then (0, I32MAX) else (I32MIN, I32MAX)
-  | .neg x => if isPositive x then (I32MIN, -1) else (I32MIN, I32MAX)
+  | .neg x =>
+    let r := range x
+    (sat (-r.2), sat (-r.1))
   | .bin .sub _ _ => (I32MIN, I32MAX)
   | .bin .broadcast a b =>
     let ra := range a
     let rb := range b
     (imax (imin ra.1 rb.1) 0, imax (imax ra.2 rb.2) 0)
-  | .bin _ a b =>                                  -- Add, Mul, Max, Min, Div, DivCeil
+  | .bin .add a b =>
+    let ra := range a
+    let rb := range b
+    (sat (ra.1 + rb.1), sat (ra.2 + rb.2))
+  | .bin .mul a b =>
+    let ra := range a
+    let rb := range b
+    if 0 ≤ ra.1 ∧ 0 ≤ rb.1 then (sat (ra.1 * rb.1), sat (ra.2 * rb.2)) else (I32MIN, I32MAX)
+  | .bin .div a b | .bin .divCeil a b =>
+    let ra := range a
+    let rb := range b
+    if 0 ≤ rb.1 then (imin ra.1 0, imax ra.2 0)
+    else (imin ra.1 (sat (-ra.2)), imax ra.2 (sat (-ra.1)))
+  | .bin .max a b | .bin .min a b =>
     let ra := range a
     let rb := range b
     (imin ra.1 rb.1, imax ra.2 rb.2)
@@ -360,9 +378,9 @@ def stepDiv (A : Arith) (l r : SymExpr) : Option SymExpr :=
       match c1, c2 with
       | .value v1, .value v2 =>
         if v1 ≠ 0 ∧ v2 ≠ 0 then
-          match A.norm (v1 * v2) with
+          match chk (v1 * v2) with                        -- `checked_mul`
           | some v => some (.bin .div l' (.value v))
-          | none => none
+          | none => some (.bin .div (.bin .div l' (.value v1)) (.value v2))
         else some (.bin .div l' (.bin .mul (.value v1) (.value v2)))
       | c1, c2 => some (.bin .div l' (.bin .mul c1 c2))
     | l, r => some (.bin .div l r)
@@ -383,9 +401,9 @@ def stepDivCeil (A : Arith) (l r : SymExpr) : Option SymExpr :=
           match c1, r with
           | .value v1, .value v2 =>
             if 0 < v1 ∧ 0 < v2 then
-              match A.norm (v1 * v2) with
+              match chk (v1 * v2) with                    -- `checked_mul`
               | some v => some (.bin .divCeil l' (.value v))
-              | none => none
+              | none => some (.bin .divCeil (.bin .divCeil l' (.value v1)) (.value v2))
             else some (.bin .divCeil l' (.bin .mul (.value v1) (.value v2)))
           | c1, c2 => some (.bin .divCeil l' (.bin .mul c1 c2))
         | l => some (.bin .divCeil l r)
